@@ -131,13 +131,15 @@ SpecOut(q, working) ==
 Obs(o, k) == Range(o[k])
 VersionedRecs(C) == {c \in C : c.id # None}
 NoDupIds(C) == \A c, d \in VersionedRecs(C) : c.id = d.id => c = d
+\* a comparison that raised is recorded as one record with id "error" (nn = the exception class)
+NoError(C) == \A c \in C : c.id # "error"
 Real(C) == {c \in VersionedRecs(C) : c.id # ROOT}
 
 LawChkGen(q, o) == Obs(o, "chk") = Obs(o, "inv")
 LawDsGen(q, o)  == Obs(o, "ds") = Obs(o, "wt")
-ApplyOk(q, C)   == NoDupIds(C) /\ Apply(q.s, Real(C), q.t) = q.t
+ApplyOk(q, C)   == NoError(C) /\ NoDupIds(C) /\ Apply(q.s, Real(C), q.t) = q.t
 LawApply(q, o)  == ~Filtered(q) => \A k \in {"chk", "inv", "old", "ds", "wt"} : ApplyOk(q, Obs(o, k))
-FilteredOk(q, C) == NoDupIds(C) /\ ParentsValid(Apply(q.s, Real(C), q.t))
+FilteredOk(q, C) == NoError(C) /\ NoDupIds(C) /\ ParentsValid(Apply(q.s, Real(C), q.t))
 LawFilteredValid(q, o) == Filtered(q) => \A k \in {"chk", "inv", "old", "ds", "wt"} : FilteredOk(q, Obs(o, k))
 CompleteOk(q, C) == \A c \in Diff(q.s, q.t) : (Inside(c.op, FilterOf(q)) \/ Inside(c.np, FilterOf(q))) => c \in C
 LawFilteredComplete(q, o) == Filtered(q) => \A k \in {"chk", "inv", "old", "ds", "wt"} : CompleteOk(q, Obs(o, k))
@@ -159,18 +161,22 @@ DriftKeys(q, o) == {k \in {"chk", "inv", "old"} : Obs(o, k) # SpecOut(q, FALSE)}
         Git trees hold files only; a rename is judged as remove + add. *)
 FileAt(t, p) == CHOOSE i \in Versioned(t) : Path(t, i) = p
 FilePaths(t) == {Path(t, i) : i \in {j \in Versioned(t) : t[j].kind = "file"}}
-Attr(t, p) == LET e == t[FileAt(t, p)] IN <<e.exec, e.content>>
+\* what git sees at a path: whose text it is (every id has its own text), which variant, and the exec bit
+Attr(t, p) == LET i == FileAt(t, p) IN <<t[i].exec, i, t[i].content>>
 GitFileRecs(C) == {c \in C : (c.ov \/ c.nv) /\ c.ok # "directory" /\ c.nk # "directory"}
 GitRemoved(C) == {c.op : c \in {d \in GitFileRecs(C) : d.ov /\ d.op # d.np /\ ~d.cp}}
 GitAdded(C)   == {c.np : c \in {d \in GitFileRecs(C) : d.nv /\ d.op # d.np}}
 GitInPlace(C) == {c.np : c \in {d \in GitFileRecs(C) : d.ov /\ d.nv /\ d.op = d.np /\ d.cc}}
+GitNoError(C) == \A c \in C : c.op # <<"error">>
 GitApplyOk(q, C) ==
+    /\ GitNoError(C)
     /\ FilePaths(q.t) = (FilePaths(q.s) \ GitRemoved(C)) \cup GitAdded(C)
     /\ GitRemoved(C) \subseteq FilePaths(q.s)
     /\ \A c \in GitFileRecs(C) : (c.nv /\ c.np \in FilePaths(q.t)) => c.nx = (IF Attr(q.t, c.np)[1] THEN "y" ELSE "n")
     /\ \A p \in (FilePaths(q.s) \cap FilePaths(q.t)) \ (GitRemoved(C) \cup GitAdded(C)) :
           (Attr(q.s, p) # Attr(q.t, p)) <=> p \in GitInPlace(C)
 GitCompleteOk(q, C) ==
+    /\ GitNoError(C)
     /\ \A p \in FilePaths(q.s) \ FilePaths(q.t) : Inside(p, FilterOf(q)) => p \in GitRemoved(C)
     /\ \A p \in FilePaths(q.t) \ FilePaths(q.s) : Inside(p, FilterOf(q)) => p \in GitAdded(C)
     /\ \A p \in FilePaths(q.s) \cap FilePaths(q.t) :
